@@ -26,7 +26,7 @@ pub fn reports(stderr: &str) -> (Vec<String>, usize) {
 }
 
 /// Runs the ThreadSanitizer build of this checker with `args`; returns (races in decoder code, other reports, finished ok).
-pub fn run_child(args: &[String]) -> (Vec<String>, usize, bool) {
+pub fn run_child(args: &[String]) -> (Vec<String>, usize, bool, bool) {
     use std::sync::atomic::{AtomicUsize, Ordering};
     static SEQ: AtomicUsize = AtomicUsize::new(0);
     let exe = std::env::var("VERIF_TSAN_EXE").unwrap_or_else(|_| crate::explore::machinery_failure("VERIF_TSAN_EXE (the ThreadSanitizer build of this checker) is not set; run through ./check"));
@@ -44,13 +44,16 @@ pub fn run_child(args: &[String]) -> (Vec<String>, usize, bool) {
         .spawn()
         .unwrap_or_else(|e| crate::explore::machinery_failure(&format!("cannot start the ThreadSanitizer child: {e}")));
     let t0 = std::time::Instant::now();
+    let mut hung = false;
+    let limit = std::env::var("VERIF_TSAN_CHILD_S").ok().and_then(|v| v.parse().ok()).unwrap_or(180u64);
     let ok = loop {
         match child.try_wait() {
             Ok(Some(st)) => break st.success(),
-            Ok(None) if t0.elapsed().as_secs() > 180 => {
+            Ok(None) if t0.elapsed().as_secs() > limit => {
                 let _ = child.kill();
                 let _ = child.wait();
-                eprintln!("ThreadSanitizer child {:?} did not finish in 180 s", args);
+                eprintln!("ThreadSanitizer child {:?} did not finish in {limit} s", args);
+                hung = true;
                 break false;
             }
             Ok(None) => std::thread::sleep(std::time::Duration::from_millis(20)),
@@ -59,8 +62,14 @@ pub fn run_child(args: &[String]) -> (Vec<String>, usize, bool) {
     };
     let text = std::fs::read_to_string(&log).unwrap_or_default();
     let _ = std::fs::remove_file(&log);
-    let (c, other) = reports(&text);
-    (c, other, ok)
+    let (mut c, other) = reports(&text);
+    // structural findings the child reports about itself (deterministic, unlike the races)
+    for l in text.lines() {
+        if let Some(n) = l.strip_prefix("VERIF-NOTE: ") {
+            c.push(format!("NOTE {n}"));
+        }
+    }
+    (c, other, ok, hung)
 }
 
 /// Runs every job (label, child arguments); returns the summary for the evidence file.
@@ -70,9 +79,15 @@ pub fn pass(jobs: &[(String, Vec<String>)], what: &str) -> Value {
     let res = par_map(jobs, (n_threads() / 4).max(1), |_, (_, args)| run_child(args));
     let mut viol: std::collections::BTreeMap<String, (String, Vec<String>)> = Default::default();
     let (mut other, mut failed) = (0usize, 0usize);
-    for ((label, args), (c, o, ok)) in jobs.iter().zip(&res) {
+    let mut hangs: Vec<Value> = vec![];
+    for ((label, args), (c, o, ok, hung)) in jobs.iter().zip(&res) {
         other += o;
-        if !ok {
+        if *hung {
+            // a render that normally takes milliseconds did not return in 180 s: callers blocked for good
+            if hangs.len() < 5 {
+                hangs.push(json!({"label": label, "child_args": args}));
+            }
+        } else if !ok {
             failed += 1;
         }
         for site in c {
@@ -83,16 +98,24 @@ pub fn pass(jobs: &[(String, Vec<String>)], what: &str) -> Value {
         crate::explore::machinery_failure(&format!("{failed} ThreadSanitizer children did not finish normally"));
     }
     let vjson: Vec<_> = viol.iter().map(|(site, (label, args))| json!({"label": label, "child_args": args, "race": site})).collect();
-    json!({"monitor": format!("ThreadSanitizer, free-running, one fresh process per run: {what}"), "runs": jobs.len(), "data_races_in_decoder_code": viol.len(), "reports_not_counted_pool_internals_or_non_race": other, "violations": vjson, "wall_s": t0.elapsed().as_secs_f64()})
+    json!({"monitor": format!("ThreadSanitizer, free-running, one fresh process per run: {what}"), "runs": jobs.len(), "runs_that_never_returned": hangs, "data_races_in_decoder_code": viol.len(), "reports_not_counted_pool_internals_or_non_race": other, "violations": vjson, "wall_s": t0.elapsed().as_secs_f64()})
 }
 
 /// Turns the races of a pass summary into violations of the report and files the summary in the evidence.
 pub fn raise(rep: &mut Report, v: Value) {
     for x in v["violations"].as_array().cloned().unwrap_or_default() {
         let (label, race) = (x["label"].as_str().unwrap_or(""), x["race"].as_str().unwrap_or(""));
+        if let Some(n) = race.strip_prefix("NOTE ") {
+            rep.violation(&format!("{}:{}", n.split(' ').next().unwrap_or("note"), label.split(" with ").next().unwrap_or(label)), &format!("free-running run {label}: {n}"), &json!({"family": "tsan", "label": label, "child_args": x["child_args"], "race": race}));
+            continue;
+        }
         // keyed by the racing source lines (without the frame numbers), one violation per distinct race
         let site: String = race.split(" | ").map(|l| l.split(" /repo/").last().unwrap_or(l).split(' ').next().unwrap_or("")).collect::<Vec<_>>().join("+");
         rep.violation(&format!("data-race:{site}"), &format!("ThreadSanitizer: data race in decoder code in the free-running run {label}: {race}"), &json!({"family": "tsan", "label": label, "child_args": x["child_args"], "race": race}));
+    }
+    for x in v["runs_that_never_returned"].as_array().cloned().unwrap_or_default() {
+        let label = x["label"].as_str().unwrap_or("");
+        rep.violation(&format!("free-running-hang:{}", label.split(" with ").next().unwrap_or(label)), &format!("the free-running run {label} did not return within 180 s (renders of this size take milliseconds): its threads wait for each other for good"), &json!({"family": "tsan-hang", "label": label, "child_args": x["child_args"]}));
     }
     rep.evaluations += v["runs"].as_u64().unwrap_or(0);
     rep.extra.insert("race_detector_pass".into(), v);
@@ -101,9 +124,22 @@ pub fn raise(rep: &mut Report, v: Value) {
 /// Replays a data-race finding (up to 5 runs: the detector needs both accesses to happen on different threads).
 pub fn replay(id: &str, path: &str, v: &Value) -> ! {
     let args: Vec<String> = v["child_args"].as_array().map(|a| a.iter().map(|x| x.as_str().unwrap_or("").to_string()).collect()).unwrap_or_default();
+    if v["family"] == "tsan-hang" {
+        // a hang shows in a few percent of the runs at most: many short runs
+        std::env::set_var("VERIF_TSAN_CHILD_S", "20");
+        for i in 0..300 {
+            let (_, _, _, hung) = run_child(&args);
+            if hung {
+                println!("VIOLATION property={id} replay={path}\n  key=free-running-hang :: run {i} did not return within 20 s");
+                std::process::exit(1)
+            }
+        }
+        println!("replay: 300 runs all returned");
+        std::process::exit(0)
+    }
     let mut seen = vec![];
     for _ in 0..5 {
-        let (c, _, _) = run_child(&args);
+        let (c, _, _, _) = run_child(&args);
         if !c.is_empty() {
             seen = c;
             break;
